@@ -84,6 +84,7 @@ func C13(p *engine.Prog, r *engine.Report) {
 		}
 		r.Check(bad == "" && len(callsToName(f, "LazyLoad")) > 0, "C13-R1", x.typ+".Readonly|LazyLoad only", p.Pos(f.Pos()), "read-only load of the version", "a read-only view uses a loading mode that can prune or overwrite versions: "+bad)
 	}
+	viewConstructorsAgreeRule(p, r, "C13-R1")
 	r.Floor("C13-R1", 30, "4 constructors x (3 + map fields) + 2 readonly")
 
 	// ---------------- R2
